@@ -187,6 +187,15 @@ CHECKS['C03'] = dict(
          'for symbolic text), RecursionError/hangs, documents as context, comment bodies and braced URIs only as bug-hunting.',
     technique='SMT-based symbolic execution (CrossHair/z3): exception-freedom of enumerated templates on symbolic arguments; symbolic lexeme bodies',
     design='DESIGN.md §4 C03')
+CHECKS['C17'] = dict(
+    text='JSON string-escaping kernels only: for every string of length <= 1 over all 0x110000 code points (length 2 as bug-hunting) '
+         'unescape_json_string(escape_json_string(s)) = s, the escaped text is well-formed JSON string content and an independent '
+         'decoder (Python json) reads it back as s - executed symbolically by CrossHair/z3. API-level round trips '
+         '(parse-json(serialize(v)), xml-to-json(json-to-xml(t))) are run as bug-hunting only.',
+    note='Trusted: CrossHair str/json models. Out (stated): XML round trip parse-xml(serialize(node)) (expat is C code on bytes), JSON '
+         'value round trips beyond bug-hunting, number formatting of decimals and doubles.',
+    technique='SMT-based symbolic execution (CrossHair/z3) of the JSON escape/unescape kernels vs an independent decoder',
+    design='DESIGN.md §4 C17')
 NOT_APPLICABLE = {
     'C04': 'Quantifies over program syntax and hash seeds: no value domain to make symbolic; symbolic source text does not get through '
            'the tokenizer regex under CrossHair (600 CPU-s, len<=2, no verdict); a table-level z3 check would verify a model of the '
